@@ -1,3 +1,4 @@
 import Props.SlicesGen
 open Model.SlicesGen
 #print axioms findHeads_eq
+#print axioms logDifference_eq
